@@ -208,3 +208,112 @@ theorem pos_of_orth_timelike (u y : Fin (n + 1) → K) (hy : mink y y < 0) (h : 
 
 end ordered
 end GT.Targets
+
+/-! ### regular polygons -/
+namespace GT.Targets
+
+section field
+variable {K : Type*} [Field K] {n : ℕ}
+
+theorem exists_cons3 (v : Fin (n + 3) → K) :
+    ∃ (a b d : K) (x : Fin n → K), v = Fin.cons a (Fin.cons b (Fin.cons d x)) :=
+  ⟨v 0, Fin.tail v 0, Fin.tail (Fin.tail v) 0, Fin.tail (Fin.tail (Fin.tail v)), by
+    rw [Fin.cons_self_tail, Fin.cons_self_tail, Fin.cons_self_tail]⟩
+
+theorem rotApply_cons (c s a b d : K) (x : Fin n → K) :
+    rotApply c s (Fin.cons a (Fin.cons b (Fin.cons d x)) : Fin (n + 3) → K)
+      = Fin.cons a (Fin.cons (c * b - s * d) (Fin.cons (s * b + c * d) x)) := by
+  simp [rotApply, Fin.tail_cons]
+
+theorem mink_cons3 (a b d a' b' d' : K) (x x' : Fin n → K) :
+    mink (Fin.cons a (Fin.cons b (Fin.cons d x)) : Fin (n + 3) → K)
+        (Fin.cons a' (Fin.cons b' (Fin.cons d' x')))
+      = -(a * a') + b * b' + d * d' + dot x x' := by
+  rw [mink_cons, dot_cons, dot_cons]; ring
+
+/-- the standard rotation preserves the Minkowski form -/
+theorem mink_rotApply (c s : K) (hcs : c ^ 2 + s ^ 2 = 1) (v w : Fin (n + 3) → K) :
+    mink (rotApply c s v) (rotApply c s w) = mink v w := by
+  obtain ⟨a, b, d, x, rfl⟩ := exists_cons3 v
+  obtain ⟨a', b', d', x', rfl⟩ := exists_cons3 w
+  rw [rotApply_cons, rotApply_cons, mink_cons3, mink_cons3]
+  linear_combination (b * b' + d * d') * hcs
+
+/-- … and fixes the origin `e₀` -/
+theorem rotApply_origin (c s : K) : rotApply c s (polyStart (n := n) 0) = polyStart 0 := by
+  unfold polyStart
+  have : (fun _ => (0 : K)) = (Fin.cons 0 (fun _ => 0) : Fin (n + 1) → K) := by
+    funext i; refine Fin.cases ?_ (fun j => ?_) i <;> simp
+  rw [this, rotApply_cons]; simp
+
+/-- every vertex is `(1, th·a, th·b, 0, …)` with `(a, b)` on the unit circle -/
+theorem polyVertex_form (c s th : K) (hcs : c ^ 2 + s ^ 2 = 1) (i : ℕ) :
+    ∃ a b : K, a ^ 2 + b ^ 2 = 1 ∧
+      polyVertex (n := n) c s th i = Fin.cons 1 (Fin.cons (th * a) (Fin.cons (th * b) fun _ => 0)) := by
+  induction i with
+  | zero =>
+    refine ⟨1, 0, by ring, ?_⟩
+    show polyStart th = _
+    unfold polyStart
+    rw [mul_one, mul_zero]; congr 1; congr 1
+    funext i; refine Fin.cases ?_ (fun j => ?_) i <;> simp
+  | succ i ih =>
+    obtain ⟨a, b, hab, hv⟩ := ih
+    refine ⟨c * a - s * b, s * a + c * b, by linear_combination (a ^ 2 + b ^ 2) * hcs + hab, ?_⟩
+    show rotApply c s (polyVertex c s th i) = _
+    rw [hv, rotApply_cons]; congr 1; congr 1
+    · ring
+    · congr 1; ring
+
+theorem mink_polyVertex_succ (c s th : K) (hcs : c ^ 2 + s ^ 2 = 1) (i j : ℕ) :
+    mink (polyVertex (n := n) c s th (i + 1)) (polyVertex c s th (j + 1))
+      = mink (polyVertex (n := n) c s th i) (polyVertex c s th j) :=
+  mink_rotApply c s hcs _ _
+
+/-- Gram entries of the vertices depend only on the index difference -/
+theorem mink_polyVertex_shift (c s th : K) (hcs : c ^ 2 + s ^ 2 = 1) (i k : ℕ) :
+    mink (polyVertex (n := n) c s th i) (polyVertex c s th (i + k))
+      = mink (polyVertex (n := n) c s th 0) (polyVertex c s th k) := by
+  induction i with
+  | zero => simp
+  | succ i ih =>
+    have : i + 1 + k = (i + k) + 1 := by ring
+    rw [this, mink_polyVertex_succ c s th hcs, ih]
+
+theorem polyVertex_zero (th : K) (c s : K) :
+    polyVertex (n := n) c s th 0 = Fin.cons 1 (Fin.cons th (Fin.cons 0 fun _ => 0)) := by
+  show polyStart th = _
+  unfold polyStart; congr 1; congr 1
+  funext i; refine Fin.cases ?_ (fun j => ?_) i <;> simp
+
+theorem polyVertex_one (th c s : K) :
+    polyVertex (n := n) c s th 1
+      = Fin.cons 1 (Fin.cons (c * th) (Fin.cons (s * th) fun _ => 0)) := by
+  show rotApply c s (polyVertex c s th 0) = _
+  rw [polyVertex_zero, rotApply_cons]; simp
+
+theorem polyVertex_two (th c s : K) :
+    polyVertex (n := n) c s th 2
+      = Fin.cons 1 (Fin.cons (c * (c * th) - s * (s * th))
+          (Fin.cons (s * (c * th) + c * (s * th)) fun _ => 0)) := by
+  show rotApply c s (polyVertex c s th 1) = _
+  rw [polyVertex_one, rotApply_cons]
+
+/-- the three Gram entries every side/angle computation needs -/
+theorem gram_polyVertex (c s th : K) (hcs : c ^ 2 + s ^ 2 = 1) (i : ℕ) :
+    mink (polyVertex (n := n) c s th i) (polyVertex c s th i) = -1 + th ^ 2 ∧
+    mink (polyVertex (n := n) c s th i) (polyVertex c s th (i + 1)) = -1 + th ^ 2 * c ∧
+    mink (polyVertex (n := n) c s th i) (polyVertex c s th (i + 2))
+      = -1 + th ^ 2 * (2 * c ^ 2 - 1) := by
+  refine ⟨?_, ?_, ?_⟩
+  · have := mink_polyVertex_shift (n := n) c s th hcs i 0
+    simp only [Nat.add_zero] at this
+    rw [this, polyVertex_zero, mink_cons3, dot_zero_left]; ring
+  · rw [mink_polyVertex_shift c s th hcs, polyVertex_zero, polyVertex_one, mink_cons3,
+      dot_zero_left]; ring
+  · rw [mink_polyVertex_shift c s th hcs, polyVertex_zero, polyVertex_two, mink_cons3,
+      dot_zero_left]
+    linear_combination (-(th ^ 2)) * hcs
+
+end field
+end GT.Targets
